@@ -78,3 +78,4 @@ M.contract('bridgepoint.gen_xsd_schema.build_user_type', [('s_udt', INST)], retu
                     'restriction-of-its-base-type': 'implies(xsd_named(base) and bool(attr_value(base, "NAME")), "base" in result.children[0].attrs and same(result.children[0].attrs["base"], attr_value(base, "NAME")))',
                     'omitted-when-the-base-is-unsupported': 'implies(not xsd_named(base), result is None)'},
            modifies=['Element.tag', 'Element.attrs', 'Element.children'])
+
